@@ -513,7 +513,16 @@ def execute(scenario, tape=None, keep_events=False):
             if any(t != tid and o == "ins" for t, o, _ in ctx.detail[lo + 1 : pos]):
                 probes.hit("insert-inside-other-threads-insert-remove-window")
     if scenario["stratum"] == "small":
-        res.stats["small_sig"] = repr(sig)
+        # canonical merge of the receive threads' steps: threads relabelled by first appearance
+        ws = [x for x in sig if x[0] != 0]
+        order = []
+        for t, _ in ws:
+            if t not in order:
+                order.append(t)
+        per = {t: tuple(o for tt, o in ws if tt == t) for t in order}
+        shape = tuple(sorted(per.values()))
+        merge = tuple((tuple(sorted(per.values())).index(per[t]) if len(set(per.values())) == len(per) else order.index(t), o) for t, o in ws)
+        res.stats["small_sig"] = repr((shape, merge))
     faults["idle-timeout-at-shutdown"] = faults.get("idle-timeout", 0) - timeouts_before_stop
     faults["idle-timeout"] = timeouts_before_stop
     res.nontrivial = changes >= 2 or timeouts_before_stop > 0 or faults.get("short-read", 0) > 0
@@ -673,9 +682,28 @@ def finalise_stats(st):
         "distinct_interleavings": len(st.get("interleavings", ())),
         "distinct_interleavings_measure": "distinct sequences of (thread, step) over the steps queue-insert / handled-command-test / queue-removal / handler-send, all scopes",
         "small_scope_distinct_merges": len(st.get("small_sigs", ())),
-        "small_scope_note": "stratum 'small' = 2 peers x 1 message; number of distinct (thread, step) merges reached (sampled, not enumerated)",
+        "small_scope_coverage": _small_cov(st.get("small_sigs", ())),
+        "small_scope_note": "stratum 'small' = 2 peers x 1 message; per shape (the two threads' step sequences) the number of distinct merges of those steps reached / the number that exist (binomial); sampled by seeded schedules, not enumerated",
         "queue_step_thread_changes_total": st.get("q_thread_changes", 0),
     }
+
+
+def _small_cov(sigs):
+    import ast
+    from math import comb
+
+    by = {}
+    for sg in sorted(sigs):
+        shape, merge = ast.literal_eval(sg)
+        by.setdefault(shape, set()).add(merge)
+    out = {}
+    for shape in sorted(by):
+        if len(shape) != 2:
+            continue
+        a, b = len(shape[0]), len(shape[1])
+        possible = comb(a + b, a) if shape[0] != shape[1] else comb(a + b, a) // 2 + (comb(a + b, a) % 2)
+        out[" | ".join(",".join(x) for x in shape)] = f"{len(by[shape])}/{possible}"
+    return out
 
 
 RULE = (
